@@ -19,6 +19,7 @@ import (
 	"fmt"
 	"os"
 	"path/filepath"
+	"syscall"
 )
 
 // SideCar is a metadata storer that uses sidecar files to store metadata.
@@ -44,12 +45,24 @@ func NewSideCar(dir string) (SideCar, error) {
 }
 
 // RetrieveAttribute retrieves the value of a specific attribute for an object or a bucket.
-func (s SideCar) RetrieveAttribute(_ *os.File, bucket, object, attribute string) ([]byte, error) {
+func (s SideCar) RetrieveAttribute(f *os.File, bucket, object, attribute string) ([]byte, error) {
 	metadir := filepath.Join(s.dir, bucket, object, sidecarmeta)
 	if object == "" {
 		metadir = filepath.Join(s.dir, bucket, sidecarmeta)
 	}
 	attr := filepath.Join(metadir, attribute)
+
+	// Attributes are kept by name and can outlive the file they described.
+	// A file that does not exist has no attributes: answer like the xattr
+	// store does (the callers tell "no such file" from "no such attribute").
+	// With an open file the caller names the file it holds, which may not
+	// have been given its name yet.
+	if f == nil {
+		_, err := os.Lstat(filepath.Join(bucket, object))
+		if errors.Is(err, os.ErrNotExist) || errors.Is(err, syscall.ENOTDIR) {
+			return nil, err
+		}
+	}
 
 	value, err := os.ReadFile(attr)
 	if errors.Is(err, os.ErrNotExist) {
